@@ -73,3 +73,52 @@ def walk_own(node: ast.AST):
 
 def exc_is(e: Edge, *names: str) -> bool:
     return e.exc is not None and e.exc.name in names
+
+
+# ------------------------------------------------------------------------------------------------ global lock helpers
+TASKVARS = ('holds_global_lock', 'inside_handler_context', '_current_event_context', '_current_handler_id_context')
+
+
+def lock_withs(c: Ctx, u: Unit) -> list[ast.AsyncWith]:
+    """`async with <expr typed ReentrantLock>` statements in *u*."""
+    out = []
+    for n in own_nodes(u.node):
+        if isinstance(n, ast.AsyncWith):
+            for it in n.items:
+                t = c.prog.infer(it.context_expr, u)
+                if t is not None and t.kind == 'cls' and t.name == 'ReentrantLock':
+                    out.append(n)
+    return out
+
+
+def lock_held_at(c: Ctx, u: Unit, node: ast.AST, _seen: set | None = None, _chain: list[str] | None = None) -> tuple[bool, list[str]]:
+    """Is the global lock known to be held whenever *node* (inside unit *u*) executes?
+
+    held = lexically inside `async with <ReentrantLock>` / dominated by a true `holds_global_lock.get()` test,
+    or (interprocedurally) every call site of *u* is itself lock-held.  Returns (held, chain that is not covered).
+    """
+    seen = _seen if _seen is not None else set()
+    chain = (_chain or []) + [u.qualname]
+    for w in lock_withs(c, u):
+        if q.lexically_in(node, w, 'body'):
+            return True, []
+    g = c.cfg(u)
+    st = stmt_of(node) if not isinstance(node, ast.stmt) else node
+    facts = Facts(lambda a: a == 'holds_global_lock.get()', cg=c.cg, unit=u, taskvars=TASKVARS)
+    cfg_nodes = g.nodes_of(st)
+    if cfg_nodes and all(q.guard_search(g, n, 'holds_global_lock.get()', facts) is None for n in cfg_nodes):
+        return True, []
+    if u.key in seen:
+        return True, []  # recursion: decided by the other call sites
+    seen.add(u.key)
+    callers = c.cg.callers(u)
+    if not callers:
+        return False, chain
+    for cu, call in callers:
+        if u.is_async and not isinstance(parent(call), ast.Await):
+            # coroutine object handed to create_task()/gather(): *u* is the entry of a new task, nothing is held there
+            return False, chain + [f'<task spawned in {cu.qualname}>']
+        ok, ch = lock_held_at(c, cu, call, seen, chain)
+        if not ok:
+            return False, ch
+    return True, []
